@@ -64,7 +64,7 @@ def cut_class(items, k):
 def run_once(data, opts):
     errs = []
     st_ = io.BytesIO(data)
-    return S.read_all(st_, opts, handler=errs.append if opts["quitonerror"] == 1 else None,
+    return S.read_all(st_, opts, handler=S.handler_returning(len(data), errs) if opts["quitonerror"] == 1 else None,
                       limit=4 * len(data) + 50)
 
 
@@ -138,7 +138,7 @@ def check(case) -> core.Out:
                 counts["resumed-after-cut"] = counts.get("resumed-after-cut", 0) + 1
                 try:
                     ts = S.TrackingStream(data[:k])
-                    rd = S.mk_reader(ts, opts, (lambda e: None) if opts["quitonerror"] == 1 else None)
+                    rd = S.mk_reader(ts, opts, S.handler_returning(k) if opts["quitonerror"] == 1 else None)
                     both = [(r, p) for r, p in rd]
                     ts.append(data[k:])
                     both += [(r, p) for r, p in rd]
